@@ -390,6 +390,8 @@ Proof.
   - apply inv1_resub. apply inv1_subscribe. exact H.
   - apply inv1_subscribe. exact H.
   - rewrite answer_with_eq. apply inv1_answer. exact H.
+  - cbn [fst snd]. destruct (inv1_destroy w e false false H) as [X _]. split; [exact X|constructor].
+  - destruct H as [F [M [S A]]]. cbn. split; [|constructor]. repeat split; assumption.
   - apply inv1_cleanup_ids. exact H.
 Qed.
 
@@ -543,7 +545,7 @@ Qed.
 
 Lemma invS_step w o : is_tamper o = false -> InvS w -> InvS (fst (step w o)).
 Proof.
-  intros T H. destruct o as [k|e|e keep|e|t|t s| |v| |p k| |k s|t|t| |p k| |om|om|ts]; cbn [step]; try discriminate.
+  intros T H. destruct o as [k|e|e keep|e|t|t s| |v| |p k| |k s|t|t| |p k| |om|om|eh|tr|ts]; cbn [step]; try discriminate.
   - destruct (create_fields w k) as [_ [S [X [M _]]]]. unfold InvS. rewrite S, X, M. exact H.
   - exact H.
   - destruct (destroy_fields w e keep true) as [_ [S [X [M _]]]]. unfold InvS. rewrite S, X, M. exact H.
@@ -562,6 +564,8 @@ Proof.
   - apply invS_resub. apply invS_subscribe. left. exact H.
   - apply invS_subscribe. left. exact H.
   - rewrite answer_with_eq. destruct (answer_fields w) as [_ [S [X [M _]]]]. unfold InvS. rewrite S, X, M. exact H.
+  - destruct (destroy_fields w eh false false) as [_ [S [X [M _]]]]. unfold InvS. cbn [fst]. rewrite S, X, M. exact H.
+  - exact H.
   - exact H.
 Qed.
 
@@ -605,7 +609,7 @@ Qed.
 
 Lemma step_launches w o t f : In (CLaunch t f) (snd (step w o)) -> f = w_mem w.
 Proof.
-  destruct o as [k|e|e keep|e|t1|t1 s| |v| |p k| |k s|t1|t1| |p k| |om|om|ts]; cbn [step]; try (cbn; intros []; fail).
+  destruct o as [k|e|e keep|e|t1|t1 s| |v| |p k| |k s|t1|t1| |p k| |om|om|eh|tr|ts]; cbn [step]; try (cbn; intros []; fail).
   - apply create_launches.
   - unfold destroy. destruct (negb (memN e (w_envs w))); [intros []|].
     destruct keep; cbn; [intros []|]. intro H. apply in_map_iff in H. destruct H as [x [E _]]. discriminate.
@@ -725,9 +729,9 @@ Qed.
 
 Lemma live_ok_step w o : live_ok (w_master w) -> live_ok (w_master (fst (step w o))).
 Proof.
-  intro H. destruct o as [k|e|e keep|e|t|t s| |v| |p k| |k s|t|t| |p k| |om|om|ts];
+  intro H. destruct o as [k|e|e keep|e|t|t s| |v| |p k| |k s|t|t| |p k| |om|om|eh|tr|ts];
     [cbn [step]|cbn [step]|cbn [step]|cbn [step]|cbn [step]|cbn [step]|cbn [step]|cbn [step]|cbn [step]
-    |rewrite step_crash|cbn [step]|cbn [step]|cbn [step]|cbn [step]|cbn [step]|cbn [step]|cbn [step]|cbn [step]|cbn [step]|cbn [step]].
+    |rewrite step_crash|cbn [step]|cbn [step]|cbn [step]|cbn [step]|cbn [step]|cbn [step]|cbn [step]|cbn [step]|cbn [step]|cbn [step]|cbn [step]|cbn [step]].
   - apply live_ok_create. exact H.
   - exact H.
   - apply live_ok_destroy. exact H.
@@ -755,6 +759,8 @@ Proof.
   - cbn. exact H.
   - exact H.
   - rewrite answer_with_eq. apply live_ok_answer. exact H.
+  - cbn [fst]. apply live_ok_destroy. exact H.
+  - cbn. exact H.
   - cbn. apply live_ok_master_kill. exact H.
 Qed.
 
@@ -937,7 +943,7 @@ Qed.
 
 Lemma inv2_step w o : tame o = true -> Inv2 w -> Inv2 (fst (step w o)).
 Proof.
-  intros T H. destruct o as [k|e|e keep|e|t|t s| |v| |p k| |k s|t|t| |p k| |om|om|ts]; cbn [step]; try discriminate.
+  intros T H. destruct o as [k|e|e keep|e|t|t s| |v| |p k| |k s|t|t| |p k| |om|om|eh|tr|ts]; cbn [step]; try discriminate.
   - apply inv2_create. exact H.
   - exact H.
   - apply inv2_destroy. exact H.
@@ -1464,7 +1470,7 @@ Definition Own (w : world) (t e : N) : Prop :=
 
 Definition tears_down (o : op) (e : N) : bool :=
   match o with
-  | ODestroy e' _ | ODestroyStuck e' => N.eqb e' e
+  | ODestroy e' _ | ODestroyStuck e' | OKillHeld e' => N.eqb e' e
   | OCrash _ _ | OCrashLost _ _ => true
   | _ => false
   end.
@@ -1578,9 +1584,28 @@ Proof.
   destruct (subscribe (set_w_pending w2 [])) as [w3 c3]. exact X.
 Qed.
 
+Lemma ri_readd ts b : forall ros,
+  NoDup (map rt_id ros) /\ roster_lt ros b -> NoDup (map rt_id (readd ts b ros)) /\ roster_lt (readd ts b ros) b.
+Proof.
+  induction ts as [|t ts IH]; intros ros H; [exact H|]. cbn [readd]. apply IH.
+  destruct (negb (in_roster t ros) && N.ltb t b) eqn:C; [|exact H].
+  apply andb_true_iff in C. destruct C as [C1 C2]. apply negb_true_iff in C1. apply N.ltb_lt in C2.
+  destruct H as [N L]. split.
+  - rewrite map_app. cbn. apply NoDup_append; [exact N|constructor; [intros []|constructor]|].
+    intros x Hx [E|[]]. subst x. apply in_map_iff in Hx. destruct Hx as [r [E Hr]].
+    assert (X : in_roster t ros = true) by (apply in_roster_spec; eauto). congruence.
+  - intros r Hr. apply in_app_or in Hr. destruct Hr as [Hr|[E|[]]]; [apply L; exact Hr|subst r; exact C2].
+Qed.
+
+Lemma readd_keeps ts b : forall ros r, In r ros -> In r (readd ts b ros).
+Proof.
+  induction ts as [|t ts IH]; intros ros r Hr; [exact Hr|]. cbn [readd]. apply IH.
+  destruct (negb (in_roster t ros) && N.ltb t b); [apply in_or_app; left|]; exact Hr.
+Qed.
+
 Lemma ri_step w o : RI w -> RI (fst (step w o)).
 Proof.
-  intro H. destruct o as [k|e|e keep|e|t|t s| |v| |p k| |k s|t|t| |p k| |om|om|ts].
+  intro H. destruct o as [k|e|e keep|e|t|t s| |v| |p k| |k s|t|t| |p k| |om|om|eh|tr|ts].
   - apply ri_create. exact H.
   - exact H.
   - apply ri_destroy. exact H.
@@ -1604,6 +1629,8 @@ Proof.
   - cbn [step]. apply ri_resub. apply ri_subscribe. exact H.
   - apply ri_subscribe. exact H.
   - apply (ri_answer w om H).
+  - cbn [step fst]. apply ri_destroy. exact H.
+  - cbn [step fst]. unfold RI. cbn. apply ri_readd. exact H.
   - apply ri_cleanup_ids. exact H.
 Qed.
 
@@ -1663,8 +1690,11 @@ Proof.
   subst q. apply (Hs r Sq). exact V.
 Qed.
 
+(* (dokill_writes_back_snapshot = false, regenerated: once its KILL calls have started doKillTasks
+   changes the roster only task by task, so nothing another goroutine appends meanwhile is lost) *)
 Lemma own_cleanup w t e : RI w -> Own w t e -> Own (fst (cleanup w)) t e.
 Proof.
+  assert (E : dokill_writes_back_snapshot = false) by reflexivity.
   intros [N _] [X M]. unfold Own. cbn. split; [|exact M].
   apply own_purge_gen; auto. intros r S V. rewrite V in S. discriminate.
 Qed.
@@ -1739,7 +1769,7 @@ Qed.
 Lemma own_step w o t e :
   RI w -> tears_down o e = false -> Own w t e -> Own (fst (step w o)) t e.
 Proof.
-  intros R T H. destruct o as [k|e'|e' keep|e'|t'|t' s| |v| |p k| |k s|t'|t'| |p k| |om|om|ts];
+  intros R T H. destruct o as [k|e'|e' keep|e'|t'|t' s| |v| |p k| |k s|t'|t'| |p k| |om|om|eh|tr|ts];
     cbn [tears_down] in T; try discriminate.
   - apply own_create; assumption.
   - exact H.
@@ -1766,6 +1796,9 @@ Proof.
   - cbn [step]. apply (own_resub _ w); auto.
   - apply (own_same w); auto.
   - apply (own_answer w om t e H).
+  - cbn [step fst]. apply own_destroy; assumption.
+  - cbn [step fst]. destruct H as [[r [Hr IV]] M]. unfold Own. cbn. split; [|exact M].
+    exists r. split; [apply readd_keeps; exact Hr|exact IV].
   - apply own_cleanup_ids; assumption.
 Qed.
 
